@@ -683,7 +683,8 @@ def run_job_uncached(job, tier='quick', log=print):
     if not verdicts and job.get('split', 'auto') in ('auto', 'always'):
         # split mode: each contract-level property on its own, the support properties together
         st = job.get('timeout', {}).get(tier, 300 if tier == 'quick' else 1800)
-        props, notes = B1.split_run(igb, solvers, st, workers=job.get('split_workers', 6), object_bits=job.get('object_bits', 12), extra=job.get('cbmc_flags', []))
+        props, notes = B1.split_run(igb, solvers, st, workers=job.get('split_workers', 6), object_bits=job.get('object_bits', 12), extra=job.get('cbmc_flags', []),
+                                    failfast=(tier == 'quick' and not os.environ.get('VP_NO_FAILFAST')))
         res['notes'] = [n for n in res['notes'] if 'no answer' not in n] + ['split mode (one run per contract-level property)'] + notes
         res['cmds'].append('cbmc %s --json-ui --object-bits %d %s --trace --property <id> {--cvc5 | --sat-solver cadical}   # once per contract-level property' % (igb, job.get('object_bits', 12), ' '.join(B1.CHECK_FLAGS)))
         if props is not None:
